@@ -294,7 +294,9 @@ def make_providers() -> list[Provider]:
                       {'with_authors': lambda b: b.with_authors(authors[1]),
                        'with_reducers': lambda b: b.with_reducers('zz 1'),
                        'with_beamline + save': lambda b: b.copy().save(io.StringIO()),
-                       'copy then rename copy': lambda b: setattr(b.copy(), 'name', 'other')}))
+                       'copy then rename copy': lambda b: setattr(b.copy(), 'name', 'other'),
+                       'save_cif with a one-off comment': lambda b: cif.save_cif(io.StringIO(), b, comment='one-off comment'),
+                       'save_cif without comment': lambda b: cif.save_cif(io.StringIO(), b)}))
     bbase = {1: cif.Block('b1', [{'audit.x': 'v'}], comment='cm'), 2: cif.Block('b2')}
 
     def blk_mut():
@@ -308,6 +310,10 @@ def make_providers() -> list[Provider]:
             b.comment = 'new'
         return {'set name': rename, 'add content': add, 'set comment': recomment}
     P.append(Provider('io.cif.Block.copy', (1, 2), lambda k: bbase[k].copy(), block_text, blk_mut()))
+    P.append(Provider('io.cif.Block (argument of save_cif / receiver of copy)', (1, 2), lambda k: bbase[k], block_text,
+                      {'save_cif with a one-off comment': lambda b: cif.save_cif(io.StringIO(), b, comment='one-off comment'),
+                       'save_cif in a list': lambda b: cif.save_cif(io.StringIO(), [b, cif.Block('other')], comment='c'),
+                       'copy then change the copy': lambda b: b.copy().add({'zz.y': 3})}))
     return P
 
 
